@@ -378,15 +378,24 @@ func c09Run(u *Unit) {
 				b, _ := json.Marshal(mt)
 				s.ZK.Put("operator", NS+"/maintenance", string(b))
 			}
-			time.Sleep(60 * time.Second)
-			_, still := s.Cached("maintenance")
 			s.W.Lock()
 			ms := mastersAlive(s.W, s.AllHosts())
+			s.W.Unlock()
+			// while leaving keeps failing the other daemons re-enter their handlers back to back (thousands of
+			// coordination requests per virtual second): keep that window short when leaving cannot succeed
+			wait := 60 * time.Second
+			if len(ms) != 1 {
+				wait = 20 * time.Second
+			}
+			s.WaitUntil(wait, time.Second, func() bool { _, st := s.Cached("maintenance"); return !st })
+			_, still := s.Cached("maintenance")
+			s.W.Lock()
+			ms = mastersAlive(s.W, s.AllHosts())
 			s.W.Unlock()
 			switch {
 			case len(ms) == 1 && still:
 				// bounded: leaving with exactly one master must succeed while a manager exists
-				sc.Violate("C09", "did-not-leave-with-one-master", fmt.Sprintf("60 s after should_leave the maintenance key is still present although exactly one master (%v) exists", ms), s.W.Describe())
+				sc.Violate("C09", "did-not-leave-with-one-master", fmt.Sprintf("within 60 s after should_leave the maintenance key was not removed although exactly one master (%v) exists", ms), s.W.Describe())
 			case len(ms) != 1 && still:
 				sc.Cover(fmt.Sprintf("kept-with-%d-masters", min(len(ms), 2)))
 				if len(ms) > 1 {
